@@ -163,6 +163,7 @@ func Load(root string, c Config) (*Program, error) {
 	for _, fn := range p.Fns {
 		p.byName[p.FnName(fn)] = fn
 	}
+	curProgram = p
 	return p, nil
 }
 
@@ -327,3 +328,7 @@ func LibFiles(root string) (all []string, err error) {
 	sort.Strings(all)
 	return
 }
+
+// curProgram: the program loaded last (for evaluators that read package-level
+// tables through their syntax).
+var curProgram *Program
